@@ -93,9 +93,52 @@ def _has_quant(t):
     return False
 
 
-def instantiate(formulas, rounds=2, max_inst=600):
-    """-> (qf formulas, complete?)  complete is False whenever a non-instantiable quantified formula was
-    dropped (then a `sat` answer on the result is only a candidate)"""
+def _triggers(body, nv):
+    """uninterpreted applications in a quantifier body that have a bound variable as a direct argument:
+    -> list of (decl, [(arg position, de-Bruijn index)])"""
+    out = []
+    seen = set()
+    stack = [body]
+    while stack:
+        t = stack.pop()
+        if t.get_id() in seen:
+            continue
+        seen.add(t.get_id())
+        if z3.is_quantifier(t):
+            continue        # nested quantifiers: handled when they surface
+        if z3.is_app(t):
+            if t.decl().kind() == z3.Z3_OP_UNINTERPRETED and t.num_args() > 0:
+                pos = [(k, z3.get_var_index(a)) for k, a in enumerate(t.children()) if z3.is_var(a)]
+                if pos:
+                    out.append((t.decl(), pos))
+            stack.extend(t.children())
+    return out
+
+
+def _ground_apps(fs):
+    """decl name -> list of ground applications"""
+    apps = {}
+    seen = set()
+    stack = list(fs)
+    while stack:
+        t = stack.pop()
+        if t.get_id() in seen:
+            continue
+        seen.add(t.get_id())
+        if z3.is_quantifier(t):
+            continue
+        if z3.is_app(t):
+            if t.decl().kind() == z3.Z3_OP_UNINTERPRETED and t.num_args() > 0 and _is_ground(t):
+                apps.setdefault(t.decl().name(), []).append(t)
+            stack.extend(t.children())
+    return apps
+
+
+def instantiate(formulas, rounds=3, max_inst=400):
+    """Trigger-based instantiation (a small E-matching): a universally quantified hypothesis is instantiated
+    with the argument terms of ground applications f(t) for every application f(x) of a bound variable in its
+    body.  -> (qf formulas, complete?)  `complete` is False whenever quantified formulas remain (then a `sat`
+    answer on the result is only a candidate)."""
     g = z3.Goal()
     g.add(*formulas)
     try:
@@ -104,30 +147,47 @@ def instantiate(formulas, rounds=2, max_inst=600):
     except z3.Z3Exception:
         fs = list(formulas)
     ground, quant = _split(fs)
-    dropped = False
+    done = set()
+    leftover = False
     for _ in range(rounds):
-        terms = _ground_int_terms(ground)
+        apps = _ground_apps(ground)
         new = []
+        newq = []
         for q in quant:
             if not (z3.is_quantifier(q) and q.is_forall()):
-                dropped = True
+                leftover = True
                 continue
             nv = q.num_vars()
-            if any(q.var_sort(i) != z3.IntSort() for i in range(nv)):
-                dropped = True
+            trig = _triggers(q.body(), nv)
+            cands = {i: [] for i in range(nv)}      # de-Bruijn index -> candidate terms
+            for decl, pos in trig:
+                for app in apps.get(decl.name(), []):
+                    for k, idx in pos:
+                        a = app.arg(k)
+                        if idx < nv and a.sort() == q.var_sort(nv - 1 - idx) and not any(a.eq(x) for x in cands[idx]):
+                            cands[idx].append(a)
+            if any(not cands[i] for i in range(nv)):
                 continue
-            cands = terms[: (24 if nv == 1 else 9 if nv == 2 else 4)]
             combos = [[]]
-            for _i in range(nv):
-                combos = [c + [t] for c in combos for t in cands]
-            for c in combos[:max_inst]:
-                inst = z3.substitute_vars(q.body(), *reversed(c))
+            for idx in range(nv):
+                combos = [c + [t] for c in combos for t in cands[idx][:12]]
+                if len(combos) > max_inst:
+                    combos = combos[:max_inst]
+            for c in combos:
+                key = (q.get_id(),) + tuple(t.get_id() for t in c)
+                if key in done:
+                    continue
+                done.add(key)
+                # substitute_vars: i-th term replaces de-Bruijn index i
+                inst = z3.substitute_vars(q.body(), *c)
                 g2, q2 = _split([inst])
                 new += g2
-                if q2:
-                    dropped = True
+                newq += q2
         ground = ground + new
-    return ground, (not quant) and not dropped
+        quant = quant + [x for x in newq]
+        if not new:
+            break
+    return ground, False if (quant or leftover) else True
 
 
 def solve(pc, goal, timeout_ms, quick_ms=3000):
@@ -152,7 +212,7 @@ def solve(pc, goal, timeout_ms, quick_ms=3000):
     cand = None
     try:
         qf, complete = instantiate(full)
-        r2, s2 = _z3_check(qf, min(20000, timeout_ms))
+        r2, s2 = _z3_check(qf, min(10000, timeout_ms))
         if r2 == z3.unsat:
             return done('unsat', backend=ver + '+inst')
         if r2 == z3.sat:
@@ -163,7 +223,7 @@ def solve(pc, goal, timeout_ms, quick_ms=3000):
         pass
     if cand is not None:
         return done('sat', cand, ver + '+inst', approx=True)
-    return solve_full(full, timeout_ms, t0)
+    return solve_full(full, min(timeout_ms, 30000) if timeout_ms <= 60000 else timeout_ms, t0)
 
 
 def solve_full(full, timeout_ms, t0=None):
@@ -179,12 +239,13 @@ def solve_full(full, timeout_ms, t0=None):
     if r == z3.sat:
         return done('sat', s.model(), ver)
     smt2 = s.to_smt2()
-    for name, cmd in (('cvc5-cli', ['/usr/bin/cvc5', '--lang=smt2', '--tlimit=%d' % timeout_ms, '--strings-exp',
+    t2 = max(1000, timeout_ms // 2)
+    for name, cmd in (('cvc5-cli', ['/usr/bin/cvc5', '--lang=smt2', '--tlimit=%d' % t2, '--strings-exp',
                                     '--nl-ext-tplanes', '-']),
-                      ('z3-4.8.12', ['/usr/bin/z3', '-smt2', '-T:%d' % max(1, timeout_ms // 1000), '-in'])):
+                      ('z3-4.8.12', ['/usr/bin/z3', '-smt2', '-T:%d' % max(1, t2 // 1000), '-in'])):
         try:
             text = smt2 if name != 'cvc5-cli' else '(set-logic ALL)\n' + smt2
-            p = subprocess.run(cmd, input=text, capture_output=True, text=True, timeout=timeout_ms / 1000.0 + 5)
+            p = subprocess.run(cmd, input=text, capture_output=True, text=True, timeout=t2 / 1000.0 + 5)
             out = p.stdout.strip().splitlines()
             if out and out[0] == 'unsat':
                 return done('unsat', backend=name)
